@@ -609,6 +609,11 @@ fn c12_queries(cache: &cur::ProguardCache<'_>, uni: &Universe, buf: (usize, usiz
         *obs += 1;
         let _ = Subj::deobfuscate_signature(cache, s);
     }
+    // malformed signatures whose slicing points fall next to multi-byte characters
+    for s in HOSTILE_SIGS {
+        *obs += 1;
+        let _ = Subj::deobfuscate_signature(cache, s);
+    }
     // the long signatures (up to 70000 array dimensions / parameters / name bytes): on the uncorrupted file and on
     // every 97th corrupted buffer
     if long {
@@ -621,6 +626,7 @@ fn c12_queries(cache: &cur::ProguardCache<'_>, uni: &Universe, buf: (usize, usiz
 }
 
 static LONG_SIGS: std::sync::OnceLock<Vec<String>> = std::sync::OnceLock::new();
+const HOSTILE_SIGS: [&str; 14] = ["", "(", ")", "()", "(L", "(L\u{e9})V", "([L\u{1F600})I", "(L\u{e9};)V", "(IL\u{e9}", "(\u{e9})V", "(I)\u{e9}", "(L;)L;", "\u{e9}(", "(La;Lb\u{20ac})I"];
 
 struct C12Base {
     lines: Vec<Line>,
